@@ -58,6 +58,10 @@ def jobs(tier):
             if m1 != m2:
                 for code in ("BBS", "BSS", "BIS", "BBSS", "BSBS"):
                     add(code, {"2020": m1, "2021": m2})
+    # three-entry schedules (the year -> method tree then has a node with two children)
+    for ms in (("fifo", "hifo", "lifo"), ("hifo", "lifo", "lofo"), ("lofo", "hifo", "lifo"), ("lifo", "lofo", "fifo")):
+        for code in ("BBS",) if tier == "quick" else ("BBS", "BBSS", "BIS"):
+            js.append({"code": code, "schedule": {"2020": ms[0], "2021": ms[1], "2022": ms[2]}, "years": [2020, 2021, 2022], "tz": False, "sell_all": False})
     if tier == "thorough":
         four = _skeletons(4)
         for m in METHODS:
@@ -82,7 +86,7 @@ def bounds(tier):
     return {
         "history_length": "all skeletons over {BUY, INTEREST, SELL, MOVE-with-fee} of length 3 and selected of length 4" if tier == "quick" else "all skeletons of length 4 and selected of length 5",
         "methods": list(METHODS),
-        "schedules": "single method, and every ordered pair (m1 from 2020, m2 from 2021)",
+        "schedules": "single method, every ordered pair (m1 from 2020, m2 from 2021), and four three-entry schedules (2020, 2021, 2022)",
         "amounts": "k*1e-11, k in [1, 1e20]",
         "prices": "k*1e-4, k in [1, 1e10]",
         "instants": "microseconds inside the window years (1 year; 2 years for schedules), ties allowed, non-decreasing in slot order",
